@@ -702,7 +702,7 @@ Section RoundTrip.
 Variable H : hist.
 Let h := h_heap H.
 Hypothesis UF : uid_faithful H.
-Hypothesis WF : well_formed H.
+Hypothesis WF : no_str H.
 Variable d : nat.
 Variable rs : list nat.
 Hypothesis Hpool : pool_refs d H = Some rs.
@@ -728,16 +728,8 @@ Proof. rewrite pool_uids. exact rs_nodup_uids. Qed.
 
 Lemma parent_in_pool : forall c x, reach H c -> In x (parents_of (get h c)) -> exists p, x = PRef p /\ reach H p.
 Proof.
-  intros c x Hc Hx. destruct (@wf_objects H WF c x Hc Hx) as [p ->].
+  intros c x Hc Hx. destruct (WF c x Hc Hx) as [p ->].
   exists p. split; [reflexivity|]. eapply reach_parent; eassumption.
-Qed.
-
-Lemma greach_reach : forall r, greach H r -> reach H r.
-Proof. induction 1 as [r Hg|c p Hc IH Hp]; [apply reach_gen; exact Hg|eapply reach_parent; eassumption]. Qed.
-
-Lemma reach_greach : forall r, reach H r -> greach H r.
-Proof.
-  induction 1 as [r Hg|r Hs|c p Hc IH Hp]; [apply greach_gen; exact Hg|apply (@wf_archive H WF); exact Hs|eapply greach_parent; eassumption].
 Qed.
 
 Lemma parents_enc : forall r, parents_of (enc_ind h r) = map (enc_pref h) (parents_of (get h r)).
@@ -781,18 +773,28 @@ Variable H' : hist.
 Hypothesis Hdec : decode_history d' E = Some H'.
 
 Let gs' := map (ix_gen pool) (map (enc_gen h) (h_gens H)).
-Let roots := all_members gs'.
+Let snaps' := map (map ixp) (map (map (uid_of h)) (h_snaps H)).
+Let roots := relink_roots gs' snaps'.
 
-Lemma roots_eq : roots = map (fun r => ixp (uid_of h r)) (all_members (h_gens H)).
+Lemma gs_members : all_members gs' = map (fun r => ixp (uid_of h r)) (all_members (h_gens H)).
 Proof.
-  unfold roots, gs'. rewrite map_map.
+  unfold gs'. rewrite map_map.
   rewrite (all_members_map (fun g => ix_gen pool (enc_gen h g)) (fun r => ixp (uid_of h r))); [reflexivity|].
   intros g. cbn. rewrite map_map. reflexivity.
 Qed.
 
+Lemma snaps_members : concat snaps' = map (fun r => ixp (uid_of h r)) (concat (h_snaps H)).
+Proof.
+  unfold snaps'. rewrite map_map. rewrite (map_ext _ (map (fun r => ixp (uid_of h r)))) by (intros l; apply map_map).
+  apply concat_map_map.
+Qed.
+
+Lemma roots_eq : roots = map (fun r => ixp (uid_of h r)) (pool_roots H).
+Proof. unfold roots, relink_roots, pool_roots. rewrite map_app, gs_members, snaps_members. reflexivity. Qed.
+
 Lemma decode_shape : exists hp4,
   relink_all d' (umap pool) (map dec_ind pool) roots = Some hp4 /\
-  H' = mkHist hp4 (h_obj H) gs' (map (map ixp) (map (map (uid_of h)) (h_snaps H))) (h_tuning H) (h_dir H).
+  H' = mkHist hp4 (h_obj H) gs' snaps' (h_tuning H) (h_dir H).
 Proof.
   unfold decode_history in Hdec. cbn [e_pool e_gens e_arch e_obj e_tuning e_dir E] in Hdec.
   rewrite (resolve_gens_closed pool pool_nodup) in Hdec.
@@ -801,7 +803,7 @@ Proof.
   rewrite (resolve_lists_closed pool pool_nodup) in Hdec.
   2:{ intros u Hu. rewrite concat_map_map in Hu. apply in_map_iff in Hu. destruct Hu as [r [<- Hr]].
       apply uid_in_pool. apply reach_snap. exact Hr. }
-  unfold relink_roots in Hdec. fold gs' in Hdec. fold roots in Hdec.
+  fold ixp in Hdec. fold gs' in Hdec. fold snaps' in Hdec. fold roots in Hdec.
   destruct (relink_all d' (umap pool) (map dec_ind pool) roots) as [hp4|] eqn:Er; [|discriminate].
   exists hp4. split; [reflexivity|]. inversion Hdec. reflexivity.
 Qed.
@@ -809,28 +811,31 @@ Qed.
 Lemma roots_lt : forall r, In r roots -> r < length pool.
 Proof.
   intros r Hr. rewrite roots_eq in Hr. apply in_map_iff in Hr. destruct Hr as [x [<- Hx]].
-  apply (ix_spec pool pool_nodup). apply uid_in_pool. apply reach_gen. exact Hx.
+  apply (ix_spec pool pool_nodup). apply uid_in_pool. apply pool_roots_reach. exact Hx.
 Qed.
 
-Lemma all_reachable : forall r, greach H r -> rch pool roots (ixp (uid_of h r)).
+Lemma all_reachable : forall r, reach H r -> rch pool roots (ixp (uid_of h r)).
 Proof.
-  induction 1 as [r Hg|c p Hc IH Hp].
-  - apply rch_root. rewrite roots_eq. apply in_map_iff. exists r. split; [reflexivity|exact Hg].
+  induction 1 as [r Hg|r Hs|c p Hc IH Hp].
+  - apply rch_root. rewrite roots_eq. apply in_map_iff. exists r. split; [reflexivity|].
+    unfold pool_roots. apply in_or_app. left. exact Hg.
+  - apply rch_root. rewrite roots_eq. apply in_map_iff. exists r. split; [reflexivity|].
+    unfold pool_roots. apply in_or_app. right. exact Hs.
   - eapply (rch_step pool roots (ixp (uid_of h c)) (enc_ind h c) (uid_of h p)).
     + exact IH.
-    + unfold pool. rewrite nth_error_map. fold ixp. rewrite (key_index c (greach_reach c Hc)). reflexivity.
+    + unfold pool. rewrite nth_error_map. fold ixp. rewrite (key_index c Hc). reflexivity.
     + rewrite parents_enc. apply in_map_iff. exists (PRef p). split; [reflexivity|exact Hp].
 Qed.
 
 Lemma decoded_cells : exists hp4,
-  H' = mkHist hp4 (h_obj H) gs' (map (map ixp) (map (map (uid_of h)) (h_snaps H))) (h_tuning H) (h_dir H) /\
+  H' = mkHist hp4 (h_obj H) gs' snaps' (h_tuning H) (h_dir H) /\
   length hp4 = length pool /\
   forall i r, nth_error rs i = Some r -> get hp4 i = link_ind pool (enc_ind h r).
 Proof.
   destruct decode_shape as [hp4 [Hrel Heq]]. exists hp4. split; [exact Heq|].
   destruct (relink_all_linked pool pool_nodup pool_closed_parents d' roots hp4 roots_lt Hrel) as [Hlen Hcells].
   split; [exact Hlen|]. intros i r Hi. apply Hcells.
-  - rewrite <- (index_key i r Hi). apply all_reachable. apply reach_greach. apply rs_in_pool. eapply nth_error_In. exact Hi.
+  - rewrite <- (index_key i r Hi). apply all_reachable. apply rs_in_pool. eapply nth_error_In. exact Hi.
   - unfold pool. rewrite nth_error_map, Hi. reflexivity.
 Qed.
 
@@ -849,7 +854,7 @@ Proof.
   - unfold gs'. rewrite map_map. apply Forall2_map_r. intros g Hg. unfold gen_rel. cbn.
     repeat split; try reflexivity. rewrite map_map. apply Forall2_map_r. intros r Hr.
     apply RT_member. apply reach_gen. eapply in_concat_map_members; eassumption.
-  - rewrite map_map. apply Forall2_map_r. intros l Hl. rewrite map_map. apply Forall2_map_r. intros r Hr.
+  - unfold snaps'. rewrite map_map. apply Forall2_map_r. intros l Hl. rewrite map_map. apply Forall2_map_r. intros r Hr.
     apply RT_member. apply reach_snap. unfold snap_member. apply in_concat. exists l. split; assumption.
   - intros r r' Hrr. unfold RT in Hrr. rewrite (Hcells _ _ Hrr). fold h.
     assert (Hr : reach H r) by (apply rs_in_pool; eapply nth_error_In; exact Hrr).
@@ -869,12 +874,10 @@ Lemma reach_decoded : forall r', reach H' r' -> exists r, nth_error rs r' = Some
 Proof.
   destruct decoded_cells as [hp4 [Heq [Hlen Hcells]]].
   intros r' Hr'. induction Hr' as [r' Hg|r' Hs|c' p' Hc IH Hp].
-  - subst H'. unfold gen_member in Hg. cbn [h_gens] in Hg. fold roots in Hg. rewrite roots_eq in Hg.
+  - subst H'. unfold gen_member in Hg. cbn [h_gens] in Hg. rewrite gs_members in Hg.
     apply in_map_iff in Hg. destruct Hg as [r [<- Hr]]. exists r. apply key_index. apply reach_gen. exact Hr.
-  - subst H'. unfold snap_member in Hs. cbn [h_snaps] in Hs. rewrite map_map in Hs.
-    apply in_concat in Hs. destruct Hs as [l' [Hl' Hin]]. apply in_map_iff in Hl'. destruct Hl' as [l [<- Hl]].
-    rewrite map_map in Hin. apply in_map_iff in Hin. destruct Hin as [r [<- Hr]]. exists r. apply key_index.
-    apply reach_snap. unfold snap_member. apply in_concat. exists l. split; assumption.
+  - subst H'. unfold snap_member in Hs. cbn [h_snaps] in Hs. rewrite snaps_members in Hs.
+    apply in_map_iff in Hs. destruct Hs as [r [<- Hr]]. exists r. apply key_index. apply reach_snap. exact Hr.
   - destruct IH as [c Hc']. subst H'. cbn [h_heap] in Hp. rewrite (Hcells _ _ Hc') in Hp.
     assert (Hcp : reach H c) by (apply rs_in_pool; eapply nth_error_In; exact Hc').
     unfold parents_of, link_ind, enc_ind, enc_indv in Hp. cbn [i_op] in Hp.
@@ -898,7 +901,7 @@ Qed.
 End RoundTrip.
 
 Theorem decode_encode_iso : forall H d d' E H',
-  uid_faithful H -> well_formed H ->
+  uid_faithful H -> no_str H ->
   encode_history d H = Some E -> decode_history d' E = Some H' ->
   iso H H' /\ uid_faithful H'.
 Proof.
@@ -1077,7 +1080,7 @@ Proof. intros H H' d [R HR]. eapply encode_respects_iso_by. exact HR. Qed.
 
 (* saving the loaded history reproduces the same JSON *)
 Theorem encode_idempotent : forall H d d' E H',
-  uid_faithful H -> well_formed H ->
+  uid_faithful H -> no_str H ->
   encode_history d H = Some E -> decode_history d' E = Some H' ->
   encode_history d H' = Some E.
 Proof.
@@ -1089,56 +1092,7 @@ Qed.
 (* ------------------------------------------------------------------------------------- *)
 (* boundaries of the round-trip theorems                                                  *)
 (* ------------------------------------------------------------------------------------- *)
-(* (a) an archive member that is in no generation and has a parent: object 1 (uid 11, mutation of
-   object 0) is only in the archive snapshot.  It is saved, but the decoder re-links parents from
-   the generation members only: its parent slot keeps the uid string, and saving again raises *)
-Definition A_heap : list (ind pref) := [
-  mkInd 10 1 1 1 (Some 0) None;
-  mkInd 11 2 2 2 None (Some (mkPop 1 [5] 100 [PRef 0])) ].
-Definition A : hist := mkHist A_heap (mkObj false []) [mkGen 0 0 0 [0]] [[0; 1]] 0 0.
-
-Definition A_loaded : hist :=
-  mkHist [ mkInd 10 1 1 1 (Some 0) None; mkInd 11 2 2 2 None (Some (mkPop 1 [5] 100 [PStr 10])) ]
-         (mkObj false []) [mkGen 0 0 0 [0]] [[0; 1]] 0 0.
-
-Lemma A_reach : forall r, reach A r -> r < 2.
-Proof.
-  induction 1 as [r Hg|r Hs|c p Hc IH Hp].
-  - unfold gen_member in Hg. cbn in Hg. lia.
-  - unfold snap_member in Hs. cbn in Hs. lia.
-  - cbn [h_heap A] in Hp. destruct c as [|[|c]]; cbn in Hp; try lia. destruct Hp as [Hp|[]]. inversion Hp. lia.
-Qed.
-
-Lemma A_faithful : uid_faithful A.
-Proof.
-  intros r1 r2 H1 H2 Hu. apply A_reach in H1. apply A_reach in H2.
-  destruct r1 as [|[|r1]]; destruct r2 as [|[|r2]]; try lia; cbn in Hu; try discriminate; reflexivity.
-Qed.
-
-Lemma A_greach : forall r, greach A r -> r = 0.
-Proof.
-  induction 1 as [r Hg|c p Hc IH Hp].
-  - unfold gen_member in Hg. cbn in Hg. destruct Hg as [Hg|[]]. symmetry. exact Hg.
-  - subst c. cbn in Hp. destruct Hp.
-Qed.
-
-Theorem archive_only_refuted :
-  uid_faithful A /\ ~ well_formed A /\
-  exists E, encode_history 5 A = Some E /\ decode_history 5 E = Some A_loaded /\
-            ~ iso A A_loaded /\ encode_history 5 A_loaded = None.
-Proof.
-  split; [exact A_faithful|]. split.
-  - intros WF. assert (H1 : 1 = 0); [|discriminate]. apply A_greach. apply (@wf_archive A WF).
-    unfold snap_member. cbn. right. left. reflexivity.
-  - eexists. split; [vm_compute; reflexivity|]. split; [vm_compute; reflexivity|]. split; [|vm_compute; reflexivity].
-    intros [R HR].
-    pose proof (iso_snaps HR) as HS. cbn in HS. inversion HS as [|l l' t t' Hl _]; subst.
-    inversion Hl as [|a b s s' _ Hl2]; subst. inversion Hl2 as [|a b s s' H11 _]; subst.
-    pose proof (iso_inds HR 1 1 H11) as [_ [_ [_ [_ [_ Hop]]]]]. cbn in Hop.
-    destruct Hop as [_ [_ [_ Hp]]]. inversion Hp as [|x y u u' Hxy _]; subst. cbn in Hxy. exact Hxy.
-Qed.
-
-(* (b) two objects with one uid (not uid-faithful): the pool keeps the last one, both generations
+(* two objects with one uid (not uid-faithful): the pool keeps the last one, both generations
    get that object back - the first individual's payload is lost *)
 Definition D_heap : list (ind pref) := [ mkInd 10 1 1 1 (Some 0) None; mkInd 10 2 2 2 (Some 1) None ].
 Definition D : hist := mkHist D_heap (mkObj false []) [mkGen 0 0 0 [0]; mkGen 1 0 0 [1]] [] 0 0.
@@ -1161,7 +1115,7 @@ Proof.
     pose proof (iso_inds HR 0 0 H00) as [_ [Hfit _]]. cbn in Hfit. discriminate.
 Qed.
 
-(* (c) a history holding an individual that was loaded on its own (its parents are uid strings)
+(* a history holding an individual that was loaded on its own (its parents are uid strings)
    cannot be saved: the encoder raises *)
 Definition S_hist : hist :=
   mkHist [ mkInd 11 2 2 2 None (Some (mkPop 1 [5] 100 [PStr 10])) ] (mkObj false []) [mkGen 0 0 0 [0]] [] 0 0.
@@ -1438,7 +1392,7 @@ Qed.
 (* ------------------------------------------------------------------------------------- *)
 (* the encoding of a faithful, pool-closed history is closed; reflection of the oracle     *)
 (* ------------------------------------------------------------------------------------- *)
-Theorem encode_closed : forall H d E, uid_faithful H -> well_formed H -> encode_history d H = Some E -> e_closed E.
+Theorem encode_closed : forall H d E, uid_faithful H -> no_str H -> encode_history d H = Some E -> e_closed E.
 Proof.
   intros H d E UF PCL Henc. unfold encode_history in Henc.
   destruct (pool_refs d H) as [rs|] eqn:Hpool; [|discriminate]. inversion Henc; subst E; clear Henc.
